@@ -392,23 +392,7 @@ Proof.
   - reflexivity.
 Qed.
 
-(* ================================================================== 4. the invariant over histories *)
-
-(* Operations OUTSIDE the proved part of the invariant: physical removal of entities (deletion with deferred
-   deletion off, a garbage collection that has something to collect, a collapse called in immediate mode, which
-   ends in one), and set_face / set_cell / the index swaps, which are not tet operations of the property.
-   For everything else - all additions in every form, accepted or rejected, deletions in deferred mode, collapses in
-   deferred mode, mode switches, clear, property operations - the shape is proved to be invariant. *)
-Definition outside_partial (s : mesh) (o : top) : bool :=
-  match o with
-  | TK (DelVertex _) | TK (DelEdge _) | TK (DelFace _) | TK (DelCell _) => negb (deferred s)
-  | TK CollectGarbage => deferred s && needs_gc s
-  | TK (EnableDeferred b) => deferred s && negb b && needs_gc s
-  | TK (SetFace _ _) | TK (SetCell _ _) => true
-  | TK (SwapV _ _) | TK (SwapE _ _) | TK (SwapF _ _) | TK (SwapC _ _) => true
-  | TCollapse _ => negb (deferred s)
-  | _ => false
-  end.
+(* ================================================================== 4. helpers *)
 
 Lemma kshape_clear kf kc b s : kshape kf kc (clear_mesh b s).
 Proof. unfold clear_mesh. cbv zeta. split; cbn; constructor. Qed.
@@ -418,90 +402,7 @@ Proof.
   intros H. unfold collect_garbage. destruct (deferred s), (needs_gc s); try discriminate; reflexivity.
 Qed.
 
-Lemma shape_exec_kernel kf kc s k s' r :
-  kshape kf kc s -> outside_partial s (TK k) = false ->
-  (forall hes c, k <> AddFace hes c) -> (forall vs, k <> AddFaceV vs) -> (forall hfs c, k <> AddCell hfs c) ->
-  exec s k = (s', r) -> kshape kf kc s'.
-Proof.
-  intros K O NF NV NC E. destruct k; cbn [exec] in E; cbn [outside_partial] in O;
-    try (exfalso; eapply NF; reflexivity); try (exfalso; eapply NV; reflexivity); try (exfalso; eapply NC; reflexivity);
-    try discriminate.
-  - (* AddVertex *) pose proof (fc_add_vertex s) as H. destruct (add_vertex s). inversion E; subst. eapply kshape_same; eassumption.
-  - inversion E; subst. eapply kshape_same; [apply fc_add_n_vertices | exact K].
-  - pose proof (fc_add_edge s a b dup) as H. destruct (add_edge s a b dup). inversion E; subst. eapply kshape_same; eassumption.
-  - inversion E; subst. eapply kshape_same; [apply fc_set_edge | exact K].
-  - (* DelVertex *) apply negb_false_iff in O. inversion E; subst.
-    eapply kshape_same; [exact (fc_dstep _ _ _ _ _ _ (delete_vertex_deferred v s O)) | exact K].
-  - apply negb_false_iff in O. inversion E; subst.
-    eapply kshape_same; [exact (fc_dstep _ _ _ _ _ _ (delete_edge_deferred e s O)) | exact K].
-  - apply negb_false_iff in O. inversion E; subst.
-    eapply kshape_same; [exact (fc_dstep _ _ _ _ _ _ (delete_face_deferred f s O)) | exact K].
-  - apply negb_false_iff in O. inversion E; subst.
-    eapply kshape_same; [exact (fc_dstep _ _ _ _ _ _ (delete_cell_deferred c s O)) | exact K].
-  - (* GC *) inversion E; subst. rewrite collect_garbage_noop by exact O. exact K.
-  - inversion E; subst. apply kshape_clear.
-  - inversion E; subst. eapply kshape_same; [apply fc_enable_vbu | exact K].
-  - inversion E; subst. eapply kshape_same; [apply fc_enable_ebu | exact K].
-  - inversion E; subst. eapply kshape_same; [apply fc_enable_fbu | exact K].
-  - (* EnableDeferred *) inversion E; subst. unfold enable_deferred.
-    destruct (deferred s && negb b) eqn:Db.
-    + cbn [andb] in O. rewrite collect_garbage_noop.
-      * destruct K; split; assumption.
-      * destruct (deferred s); [exact O | reflexivity].
-    + destruct K; split; assumption.
-  - inversion E; subst. destruct K; split; assumption.
-  - inversion E; subst. destruct K; split; assumption.
-  - inversion E; subst. destruct K; split; assumption.
-  - inversion E; subst. destruct K; split; assumption.
-Qed.
-
 Ltac some_inj E E' := match type of E with Some ?x = Some ?y => assert (E' : x = y) by congruence end.
-
-Theorem tet_shape_step s o s' r : tet_shape s -> outside_partial s o = false -> tet_step s o = TOk s' r -> tet_shape s'.
-Proof.
-  intros K O. unfold tet_step. destruct (tet_valid s o); [|discriminate].
-  destruct (tet_exec s o) as [[s1 r1]|] eqn:E; [|discriminate]. intros H. inversion H; subst. clear H.
-  destruct o as [k|vs chk|a b c d chk|a b|a b c chk|hes chk|he]; cbn [tet_exec] in E.
-  - destruct k; try (some_inj E E'; unfold tet_shape in *; eapply (shape_exec_kernel 3 4); [exact K | exact O | | | | exact E']; intros; discriminate).
-    + some_inj E E'. pose proof (shape_tet_add_face s hes check K) as H. rewrite E' in H. exact H.
-    + some_inj E E'. pose proof (shape_tet_add_face_v s vs K) as H. rewrite E' in H. exact H.
-    + some_inj E E'. pose proof (shape_tet_add_cell s hfs check K) as H. rewrite E' in H. exact H.
-  - some_inj E E'. pose proof (shape_tet_add_cell_v s vs chk K) as H. rewrite E' in H. exact H.
-  - exact (shape_tet_add_cell_4 s a b c d chk _ K E).
-  - pose proof (fc_tet_add_halfedge s a b) as H. destruct (tet_add_halfedge s a b) as [s2 h]. inversion E; subst.
-    eapply kshape_same; eassumption.
-  - some_inj E E'. pose proof (shape_tet_add_halfface_v s a b c chk K) as H. rewrite E' in H. exact H.
-  - some_inj E E'. pose proof (shape_tet_add_halfface s hes chk K) as H. rewrite E' in H. exact H.
-  - cbn [outside_partial] in O. apply negb_false_iff in O. unfold bind in E.
-    destruct (collapse_edge s he) as [[s2 v]|] eqn:C; [|discriminate]. inversion E; subst.
-    exact (proj1 (proj1 (collapse_edge_deferred s he s' v (conj K O) C))).
-Qed.
-
-(* a history all of whose executed steps are inside the proved part *)
-Fixpoint inside_along (s : mesh) (ops : list top) : Prop :=
-  match ops with
-  | [] => True
-  | o :: t => match tet_step s o with
-              | TOk s' _ => outside_partial s o = false /\ inside_along s' t
-              | _ => inside_along s t
-              end
-  end.
-
-Theorem tet_shape_run_from : forall ops s, tet_shape s -> inside_along s ops -> tet_shape (tet_run_from s ops).
-Proof.
-  induction ops as [|o t IH]; intros s K H; [exact K|].
-  unfold tet_run_from. simpl. fold (tet_run_from (match tet_step s o with TOk s' _ => s' | _ => s end) t).
-  simpl in H. destruct (tet_step s o) as [s' r| |] eqn:E.
-  - destruct H as [O H]. apply IH; [eapply tet_shape_step; eassumption | exact H].
-  - apply IH; assumption.
-  - apply IH; assumption.
-Qed.
-
-Lemma tet_shape_empty : tet_shape empty_mesh.
-Proof. split; constructor. Qed.
-
-Theorem tet_shape_run ops : inside_along empty_mesh ops -> tet_shape (tet_run ops).
-Proof. apply tet_shape_run_from. apply tet_shape_empty. Qed.
 
 (* ================================================================== 5. query contracts on well-formed tetrahedra *)
 
@@ -796,7 +697,544 @@ Example one_tet_queries :
   tet_iter one_tet 0 2 = Some [0; 1; 2; 3; 0; 1; 2; 3].
 Proof. vm_compute. repeat split. Qed.
 
-(* ================================================================== 6. the FULL shape statement is refuted *)
+(* ================================================================== 7. physical removal in FAST mode keeps the valences *)
+
+(* In fast mode an entity is removed by swapping it with the last one and dropping the last: no stored list is ever
+   filtered, every list keeps its length - unconditionally (no kernel invariant is needed).  Slow immediate removal
+   filters the deleted handles out of the stored lists (TopologyKernel.cc:1270-1300, 1390-1420) and keeps the lengths
+   only when no surviving entity references the removed one: that is C02's closure property, not proved here. *)
+
+Lemma remove_nth_upd_same {A} i x (l : list A) : remove_nth i (upd i x l) = remove_nth i l.
+Proof. revert i. induction l as [|a l IH]; intros [|i]; simpl; auto. f_equal. apply IH. Qed.
+
+Lemma upd_out_of_range {A} i x (l : list A) : length l <= i -> upd i x l = l.
+Proof. revert i. induction l as [|a l IH]; intros [|i] H; simpl in *; auto; try lia. f_equal. apply IH. lia. Qed.
+
+Section ListShape.
+  Context {A : Type} (P : A -> Prop).
+
+  Lemma Forall_upd' i x (l : list A) : Forall P l -> P x -> Forall P (upd i x l).
+  Proof.
+    revert i. induction l as [|a l IH]; intros i F Hx; [destruct i; constructor|].
+    inversion F; subst. destruct i; simpl; constructor; auto.
+  Qed.
+
+  Lemma Forall_remove_nth i (l : list A) : Forall P l -> Forall P (remove_nth i l).
+  Proof.
+    revert i. induction l as [|a l IH]; intros i F; [destruct i; constructor|].
+    inversion F; subst. destruct i; simpl; [assumption | constructor; auto].
+  Qed.
+
+  Lemma Forall_nth_in i (l : list A) d : Forall P l -> i < length l -> P (nth i l d).
+  Proof. intros F H. rewrite Forall_forall in F. apply F. apply nth_In. exact H. Qed.
+
+  (* swap an element with the last one and drop the last *)
+  Lemma Forall_swap_remove_last h0 d (l : list A) :
+    Forall P l -> Forall P (remove_nth (length l - 1) (swap_nth h0 (length l - 1) d l)).
+  Proof.
+    intros F. unfold swap_nth. set (h := length l - 1).
+    destruct (le_lt_dec (length l) h0) as [Out|In0].
+    - rewrite (upd_out_of_range h0 _ l Out). rewrite remove_nth_upd_same. apply Forall_remove_nth. exact F.
+    - apply Forall_remove_nth. apply Forall_upd'; [apply Forall_upd'|].
+      + exact F.
+      + apply Forall_nth_in; [exact F | unfold h; lia].
+      + apply Forall_nth_in; assumption.
+  Qed.
+
+  (* a swap of two valid positions *)
+  Lemma Forall_swap_nth a b d (l : list A) : Forall P l -> a < length l -> b < length l -> Forall P (swap_nth a b d l).
+  Proof.
+    intros F Ha Hb. unfold swap_nth. apply Forall_upd'; [apply Forall_upd'|]; try assumption; apply Forall_nth_in; assumption.
+  Qed.
+End ListShape.
+
+Definition lenP (k : nat) (l : list nat) : Prop := length l = k.
+
+(* relabelings keep every length *)
+Lemma Forall_len_map_map k (g : nat -> nat) ll : Forall (lenP k) ll -> Forall (lenP k) (map (map g) ll).
+Proof. intros F. induction F; simpl; constructor; auto. unfold lenP in *. rewrite map_length. assumption. Qed.
+
+Lemma Forall_len_upd_map k (g : nat -> nat) i ll : Forall (lenP k) ll -> Forall (lenP k) (upd i (map g (nth i ll [])) ll).
+Proof.
+  intros F. destruct (le_lt_dec (length ll) i) as [Out|In0].
+  - rewrite upd_out_of_range by exact Out. exact F.
+  - apply Forall_upd'; [exact F|]. unfold lenP. rewrite map_length. apply (Forall_nth_in (lenP k)); assumption.
+Qed.
+
+Lemma Forall_len_fold_upd_map {X} k (g : nat -> nat) (sel : X -> nat) (skip : list nat -> X -> bool) xs : forall ll done,
+  Forall (lenP k) ll ->
+  Forall (lenP k) (fst (fold_left (fun (acc : list (list nat) * list nat) x =>
+                                     let '(cs, dn) := acc in
+                                     if skip dn x then acc else (upd (sel x) (map g (nth (sel x) cs [])) cs, sel x :: dn)) xs (ll, done))).
+Proof.
+  induction xs as [|x xs IH]; intros ll done F; [exact F|]. cbn [fold_left].
+  destruct (skip done x); [apply IH; exact F|]. apply IH. apply Forall_len_upd_map. exact F.
+Qed.
+
+Lemma fold_keeps_len {X} k (f : list (list nat) * list nat -> X -> list (list nat) * list nat) :
+  (forall acc x, Forall (lenP k) (fst acc) -> Forall (lenP k) (fst (f acc x))) ->
+  forall xs acc, Forall (lenP k) (fst acc) -> Forall (lenP k) (fst (fold_left f xs acc)).
+Proof. intros H. induction xs as [|x xs IH]; intros acc F; [exact F|]. simpl. apply IH. apply H. exact F. Qed.
+
+Definition fmode (s t : mesh) : Prop := deferred t = deferred s /\ fast t = fast s.
+Lemma fmode_refl s : fmode s s. Proof. split; reflexivity. Qed.
+Lemma fmode_trans s t u : fmode s t -> fmode t u -> fmode s u.
+Proof. intros [a b] [c d]. split; congruence. Qed.
+
+(* ---- the index swaps *)
+Lemma swap_cell_fc a b s :
+  faces (swap_cell_indices a b s) = faces s /\
+  cells (swap_cell_indices a b s) = (if a =? b then cells s else swap_nth a b [] (cells s)) /\
+  fmode s (swap_cell_indices a b s).
+Proof.
+  unfold swap_cell_indices. destruct (a =? b); [repeat split; reflexivity|]. cbv zeta.
+  destruct (fbu s); repeat split; reflexivity.
+Qed.
+
+Lemma swap_face_fc kc a b s : Forall (lenP kc) (cells s) ->
+  faces (swap_face_indices a b s) = (if a =? b then faces s else swap_nth a b [] (faces s)) /\
+  Forall (lenP kc) (cells (swap_face_indices a b s)) /\ fmode s (swap_face_indices a b s).
+Proof.
+  intros C. unfold swap_face_indices. destruct (a =? b); [repeat split; try reflexivity; exact C|]. cbv zeta.
+  match goal with |- context [set_cells ?c1 s] => set (cells1 := c1) end.
+  assert (C1 : Forall (lenP kc) cells1).
+  { unfold cells1. destruct (fbu s).
+    - apply (fold_keeps_len kc); [|exact C]. intros [cs done] x F. cbn [fst] in *.
+      destruct (cell_of s x) as [ch|]; [|exact F]. destruct (memb ch done); [exact F|]. cbn [fst].
+      apply Forall_len_upd_map. exact F.
+    - apply Forall_len_map_map. exact C. }
+  clearbody cells1.
+  repeat match goal with |- context [if ?c then _ else _] => destruct c end; repeat split; try reflexivity; exact C1.
+Qed.
+
+Lemma swap_edge_fc kf a b s : Forall (lenP kf) (faces s) ->
+  Forall (lenP kf) (faces (swap_edge_indices a b s)) /\ cells (swap_edge_indices a b s) = cells s /\ fmode s (swap_edge_indices a b s).
+Proof.
+  intros F. unfold swap_edge_indices. destruct (a =? b); [repeat split; try reflexivity; exact F|]. cbv zeta.
+  match goal with |- context [set_faces ?f1 s] => set (faces1 := f1) end.
+  assert (F1 : Forall (lenP kf) faces1).
+  { unfold faces1. destruct (ebu s).
+    - apply (fold_keeps_len kf); [|exact F]. intros [fs done] x G. cbn [fst] in *.
+      destruct (memb (x / 2) done); [exact G|]. cbn [fst]. apply Forall_len_upd_map. exact G.
+    - apply Forall_len_map_map. exact F. }
+  clearbody faces1.
+  destruct (edge_at (set_faces faces1 s) a) as [a0 a1]. destruct (edge_at (set_faces faces1 s) b) as [b0 b1].
+  repeat match goal with |- context [if ?c then _ else _] => destruct c end; repeat split; try reflexivity; exact F1.
+Qed.
+
+Lemma swap_vertex_fc a b s : same_fc s (swap_vertex_indices a b s) /\ fmode s (swap_vertex_indices a b s).
+Proof.
+  unfold swap_vertex_indices. destruct (a =? b); [split; [apply same_fc_refl | apply fmode_refl]|]. cbv zeta.
+  repeat match goal with |- context [if ?c then _ else _] => destruct c end; repeat split; reflexivity.
+Qed.
+
+Lemma fast_reorder_one e s : fast (reorder_incident_halffaces e s) = fast s.
+Proof. unfold reorder_incident_halffaces. destruct (reorder_list s e); reflexivity. Qed.
+Lemma fast_reorder_edges es : forall s, fast (reorder_edges es s) = fast s.
+Proof.
+  unfold reorder_edges. induction es as [|e es IH]; intros s; [reflexivity|]. simpl. rewrite IH. apply fast_reorder_one.
+Qed.
+
+(* the state of immediate + fast deletion *)
+Definition fastq (kf kc : nat) (s : mesh) : Prop := kshape kf kc s /\ deferred s = false /\ fast s = true.
+
+Lemma fastq_delete_cell_core kf kc h0 s0 : fastq kf kc s0 -> fastq kf kc (delete_cell_core h0 s0).
+Proof.
+  intros ([F C]&D&Fa). unfold delete_cell_core. rewrite D, Fa. cbn [negb andb]. cbv zeta.
+  destruct (swap_cell_fc h0 (nc s0 - 1) s0) as (sf&sc&sd&sfa). set (s := swap_cell_indices h0 (nc s0 - 1) s0) in *.
+  match goal with |- context [if deferred ?x then _ else _] => set (s1 := x) end.
+  assert (H1 : faces s1 = faces s /\ cells s1 = cells s /\ deferred s1 = deferred s /\ fast s1 = fast s).
+  { unfold s1. destruct (fbu s); [|repeat split; reflexivity].
+    match goal with |- context [if ebu ?y then reorder_edges ?es ?y else ?y] =>
+      destruct (ebu y); [destruct (fc_reorder_edges es y) as (a&b&c); rewrite a, b, c, fast_reorder_edges|]; repeat split; reflexivity end. }
+  destruct H1 as (f1&c1&d1&a1). clearbody s1.
+  rewrite d1, sd, D. rewrite a1, sfa, Fa. cbn [negb andb].
+  unfold cell_deleted, delete_prop_elem. split; [split|split]; cbn.
+  - rewrite f1, sf. exact F.
+  - rewrite c1, sc. destruct (h0 =? nc s0 - 1); [apply Forall_remove_nth; exact C | apply (Forall_swap_remove_last (lenP kc)); exact C].
+  - rewrite d1, sd. exact D.
+  - rewrite a1, sfa. exact Fa.
+Qed.
+
+Lemma fastq_delete_face_core kf kc h0 s0 : fastq kf kc s0 -> fastq kf kc (delete_face_core h0 s0).
+Proof.
+  intros ([F C]&D&Fa). unfold delete_face_core. rewrite D, Fa. cbn [negb andb]. cbv zeta.
+  destruct (swap_face_fc kc h0 (nf s0 - 1) s0 C) as (sf&sc&sd&sfa). set (s := swap_face_indices h0 (nf s0 - 1) s0) in *.
+  match goal with |- context [if deferred ?x then _ else _] => set (s1 := x) end.
+  assert (H1 : faces s1 = faces s /\ cells s1 = cells s /\ deferred s1 = deferred s /\ fast s1 = fast s).
+  { unfold s1. destruct (ebu s); [|repeat split; reflexivity].
+    match goal with |- context [fold_left ?f ?l1 s] => generalize l1; intros l0;
+      assert (G : forall l t, faces t = faces s /\ cells t = cells s /\ deferred t = deferred s /\ fast t = fast s ->
+                  faces (fold_left f l t) = faces s /\ cells (fold_left f l t) = cells s /\ deferred (fold_left f l t) = deferred s /\ fast (fold_left f l t) = fast s) end.
+    { induction l as [|he l IH]; intros t Ht; [exact Ht|]. cbn [fold_left]. apply IH. destruct Ht as (t1&t2&t3&t4).
+      match goal with |- context [if fbu ?y then reorder_incident_halffaces ?e ?y else ?y] =>
+        destruct (fbu y); [destruct (fc_reorder_one e y) as (a&b&c); rewrite a, b, c, fast_reorder_one|]; cbn; repeat split; assumption end. }
+    apply G. repeat split; reflexivity. }
+  destruct H1 as (f1&c1&d1&a1). clearbody s1.
+  rewrite d1, sd, D. rewrite !a1, !sfa, !Fa. cbn [negb andb].
+  match goal with |- context [if fbu s1 then ?x else s1] => set (s3 := if fbu s1 then x else s1) end.
+  assert (H3 : faces s3 = faces s1 /\ cells s3 = cells s1 /\ deferred s3 = deferred s1 /\ fast s3 = fast s1)
+    by (unfold s3; destruct (fbu s1); repeat split; reflexivity).
+  destruct H3 as (f3&c3&d3&a3). clearbody s3. rewrite a3, a1, sfa, Fa. cbn [negb andb].
+  unfold face_deleted, delete_prop_elem. split; [split|split]; cbn.
+  - rewrite f3, f1, sf. destruct (h0 =? nf s0 - 1); [apply Forall_remove_nth; exact F | apply (Forall_swap_remove_last (lenP kf)); exact F].
+  - rewrite c3, c1. exact sc.
+  - rewrite d3, d1, sd. exact D.
+  - rewrite a3, a1, sfa. exact Fa.
+Qed.
+
+Lemma fastq_delete_edge_core kf kc h0 s0 : fastq kf kc s0 -> fastq kf kc (delete_edge_core h0 s0).
+Proof.
+  intros ([F C]&D&Fa). unfold delete_edge_core. rewrite D, Fa. cbn [negb andb]. cbv zeta.
+  destruct (swap_edge_fc kf h0 (ne s0 - 1) s0 F) as (sf&sc&sd&sfa). set (s := swap_edge_indices h0 (ne s0 - 1) s0) in *.
+  match goal with |- context [if deferred ?x then _ else _] => set (s1 := x) end.
+  assert (H1 : faces s1 = faces s /\ cells s1 = cells s /\ deferred s1 = deferred s /\ fast s1 = fast s).
+  { unfold s1. destruct (vbu s); [destruct (edge_at s (ne s0 - 1))|]; repeat split; reflexivity. }
+  destruct H1 as (f1&c1&d1&a1). clearbody s1.
+  rewrite d1, sd, D. rewrite !a1, !sfa, !Fa. cbn [negb andb].
+  match goal with |- context [if ebu s1 then ?x else s1] => set (s3 := if ebu s1 then x else s1) end.
+  assert (H3 : faces s3 = faces s1 /\ cells s3 = cells s1 /\ deferred s3 = deferred s1 /\ fast s3 = fast s1)
+    by (unfold s3; destruct (ebu s1); repeat split; reflexivity).
+  destruct H3 as (f3&c3&d3&a3). clearbody s3. rewrite a3, a1, sfa, Fa. cbn [negb andb].
+  unfold edge_deleted, delete_prop_elem. split; [split|split]; cbn.
+  - rewrite f3, f1. exact sf.
+  - rewrite c3, c1, sc. exact C.
+  - rewrite d3, d1, sd. exact D.
+  - rewrite a3, a1, sfa. exact Fa.
+Qed.
+
+Lemma fastq_delete_vertex_core kf kc h0 s0 : fastq kf kc s0 -> fastq kf kc (delete_vertex_core h0 s0).
+Proof.
+  intros ([F C]&D&Fa). unfold delete_vertex_core. rewrite D, Fa. cbn [negb andb]. cbv zeta.
+  destruct (swap_vertex_fc h0 (nv s0 - 1) s0) as ((sf&sc&sd)&(_&sfa)). set (s := swap_vertex_indices h0 (nv s0 - 1) s0) in *.
+  rewrite sd, D.
+  unfold vertex_deleted, delete_prop_elem.
+  repeat match goal with |- context [if ?c then _ else _] => destruct c end;
+    (split; [split|split]; cbn; [rewrite sf; exact F | rewrite sc; exact C | rewrite sd; exact D | rewrite sfa; exact Fa]).
+Qed.
+
+Lemma fastq_del_desc kf kc core l : (forall x s, fastq kf kc s -> fastq kf kc (core x s)) ->
+  forall s, fastq kf kc s -> fastq kf kc (del_desc core l s).
+Proof.
+  intros H. unfold del_desc. generalize (rev l). intros r. induction r as [|x r IH]; intros s Q; [exact Q|].
+  simpl. apply IH. apply H. exact Q.
+Qed.
+
+Lemma fastq_delete_cell kf kc c s : fastq kf kc s -> fastq kf kc (delete_cell c s).
+Proof. apply fastq_delete_cell_core. Qed.
+Lemma fastq_delete_face kf kc f s : fastq kf kc s -> fastq kf kc (delete_face f s).
+Proof. intros Q. unfold delete_face. apply fastq_delete_face_core. apply fastq_del_desc; [intros; apply fastq_delete_cell_core; assumption | exact Q]. Qed.
+Lemma fastq_delete_edge kf kc e s : fastq kf kc s -> fastq kf kc (delete_edge e s).
+Proof.
+  intros Q. unfold delete_edge. apply fastq_delete_edge_core.
+  apply fastq_del_desc; [intros; apply fastq_delete_face_core; assumption|].
+  apply fastq_del_desc; [intros; apply fastq_delete_cell_core; assumption | exact Q].
+Qed.
+Lemma fastq_delete_vertex kf kc v s : fastq kf kc s -> fastq kf kc (delete_vertex v s).
+Proof.
+  intros Q. unfold delete_vertex. apply fastq_delete_vertex_core.
+  apply fastq_del_desc; [intros; apply fastq_delete_edge_core; assumption|].
+  apply fastq_del_desc; [intros; apply fastq_delete_face_core; assumption|].
+  apply fastq_del_desc; [intros; apply fastq_delete_cell_core; assumption | exact Q].
+Qed.
+
+Lemma fastq_gc_pass kf kc n is_del clr core : (forall i s, fastq kf kc s -> fastq kf kc (clr i s)) ->
+  (forall i s, fastq kf kc s -> fastq kf kc (core i s)) -> forall s, fastq kf kc s -> fastq kf kc (gc_pass n is_del clr core s).
+Proof.
+  intros Hc Hk. unfold gc_pass. generalize (rev (seq 0 n)). intros r. induction r as [|i r IH]; intros s Q; [exact Q|].
+  simpl. apply IH. destruct (is_del s i); [apply Hk; apply Hc; exact Q | exact Q].
+Qed.
+
+Lemma fastq_same kf kc s t : faces t = faces s -> cells t = cells s -> deferred t = deferred s -> fast t = fast s ->
+  fastq kf kc s -> fastq kf kc t.
+Proof. intros a b c d ([F C]&D&Fa). split; [split; [rewrite a; exact F | rewrite b; exact C] | split; congruence]. Qed.
+
+(* garbage collection in fast mode keeps the valences *)
+Lemma kshape_collect_garbage_fast kf kc s : kshape kf kc s -> fast s = true -> kshape kf kc (collect_garbage s) /\ fast (collect_garbage s) = true /\ deferred (collect_garbage s) = deferred s.
+Proof.
+  intros K Fa. unfold collect_garbage. destruct (negb (deferred s) || negb (needs_gc s)) eqn:G; [split; [exact K | split; [exact Fa | reflexivity]]|].
+  assert (D : deferred s = true) by (destruct (deferred s); [reflexivity | discriminate]).
+  cbv zeta.
+  set (s0 := set_flags (vbu s) (ebu s) (fbu s) false (fast s) s).
+  assert (Q0 : fastq kf kc s0) by (split; [destruct K; split; assumption | split; [reflexivity | exact Fa]]).
+  assert (Hclr : forall (g : nat -> mesh -> mesh), (forall i t, faces (g i t) = faces t /\ cells (g i t) = cells t /\ deferred (g i t) = deferred t /\ fast (g i t) = fast t) ->
+                 forall i t, fastq kf kc t -> fastq kf kc (g i t)).
+  { intros g Hg i t Q. destruct (Hg i t) as (a&b&c&d). eapply fastq_same; eassumption. }
+  assert (Hcnt : forall a b c d t, fastq kf kc t -> fastq kf kc (set_counts a b c d t)).
+  { intros a b c d t Q. eapply fastq_same; [| | | | exact Q]; reflexivity. }
+  match goal with |- context [gc_pass (nc s0) ?d ?c ?k s0] => pose proof (fastq_gc_pass kf kc (nc s0) d c k) as P1 end.
+  specialize (P1 (Hclr _ (fun i t => conj eq_refl (conj eq_refl (conj eq_refl eq_refl)))) (fun i t => fastq_delete_cell_core kf kc i t) s0 Q0).
+  match type of P1 with fastq _ _ ?x => set (s1 := x) in * end.
+  pose proof (Hcnt (ndv s1) (nde s1) (ndf s1) 0 s1 P1) as P1'. set (s1' := set_counts (ndv s1) (nde s1) (ndf s1) 0 s1) in *.
+  match goal with |- context [gc_pass (nf s1') ?d ?c ?k s1'] => pose proof (fastq_gc_pass kf kc (nf s1') d c k) as P2 end.
+  specialize (P2 (Hclr _ (fun i t => conj eq_refl (conj eq_refl (conj eq_refl eq_refl)))) (fun i t => fastq_delete_face_core kf kc i t) s1' P1').
+  match type of P2 with fastq _ _ ?x => set (s2 := x) in * end.
+  pose proof (Hcnt (ndv s2) (nde s2) 0 (ndc s2) s2 P2) as P2'. set (s2' := set_counts (ndv s2) (nde s2) 0 (ndc s2) s2) in *.
+  match goal with |- context [gc_pass (ne s2') ?d ?c ?k s2'] => pose proof (fastq_gc_pass kf kc (ne s2') d c k) as P3 end.
+  specialize (P3 (Hclr _ (fun i t => conj eq_refl (conj eq_refl (conj eq_refl eq_refl)))) (fun i t => fastq_delete_edge_core kf kc i t) s2' P2').
+  match type of P3 with fastq _ _ ?x => set (s3 := x) in * end.
+  pose proof (Hcnt (ndv s3) 0 (ndf s3) (ndc s3) s3 P3) as P3'. set (s3' := set_counts (ndv s3) 0 (ndf s3) (ndc s3) s3) in *.
+  match goal with |- context [gc_pass (nv s3') ?d ?c ?k s3'] => pose proof (fastq_gc_pass kf kc (nv s3') d c k) as P4 end.
+  specialize (P4 (Hclr _ (fun i t => conj eq_refl (conj eq_refl (conj eq_refl eq_refl)))) (fun i t => fastq_delete_vertex_core kf kc i t) s3' P3').
+  match type of P4 with fastq _ _ ?x => set (s4 := x) in * end.
+  pose proof (Hcnt 0 (nde s4) (ndf s4) (ndc s4) s4 P4) as P4'. set (s4' := set_counts 0 (nde s4) (ndf s4) (ndc s4) s4) in *.
+  destruct P4' as ([F4 C4]&_&Fa4). repeat split; cbn; try assumption. rewrite D. reflexivity.
+Qed.
+
+(* ---- the fast flag is not touched by additions, deferred deletions and the collapse loop *)
+Lemma fast_add_edge s a b d : fast (fst (add_edge s a b d)) = fast s.
+Proof.
+  unfold add_edge, append_edge. cbv zeta.
+  destruct d; [|destruct (find_dup_edge s a b); [reflexivity|]]; cbn [fst];
+    repeat match goal with |- context [if ?c then _ else _] => destruct c end; reflexivity.
+Qed.
+Lemma fast_add_face s hes chk : fast (fst (add_face s hes chk)) = fast s.
+Proof.
+  unfold add_face, append_face. cbv zeta. destruct (chk && negb (loop_ok s hes)); [reflexivity|]. cbn [fst].
+  repeat match goal with |- context [if ?c then _ else _] => destruct c end; reflexivity.
+Qed.
+Lemma fast_add_cell s hfs chk : fast (fst (add_cell s hfs chk)) = fast s.
+Proof.
+  unfold add_cell, append_cell. cbv zeta. destruct (chk && negb (cell_check s hfs)); [reflexivity|].
+  match goal with |- context [if fbu ?x then _ else _] => destruct (fbu x) end; cbn [fst]; [|reflexivity].
+  match goal with |- context [if ebu ?x then _ else _] => destruct (ebu x) end; [rewrite fast_reorder_edges|]; reflexivity.
+Qed.
+Lemma fast_tet_add_halfedge s a b : fast (fst (tet_add_halfedge s a b)) = fast s.
+Proof.
+  unfold tet_add_halfedge. destruct (find_halfedge s a b); [reflexivity|].
+  pose proof (fast_add_edge s a b false) as H. destruct (add_edge s a b false). exact H.
+Qed.
+Lemma fast_tet_add_halfface s hes chk : fast (fst (tet_add_halfface s hes chk)) = fast s.
+Proof.
+  unfold tet_add_halfface, tet_add_face. destruct (find_halfface_hes s _ _); [reflexivity|].
+  destruct (negb (length hes =? 3)); [reflexivity|].
+  pose proof (fast_add_face s hes chk) as H. destruct (add_face s hes chk). exact H.
+Qed.
+Lemma fast_tet_add_cell s hfs chk : fast (fst (tet_add_cell s hfs chk)) = fast s.
+Proof. unfold tet_add_cell. destruct (negb _); [reflexivity|]. destruct (negb _); [reflexivity | apply fast_add_cell]. Qed.
+
+Lemma fast_dstep s t a b c d : dstep s t a b c d -> fast t = fast s.
+Proof. intros (_&_&_&_&_&_&_&_&_&_&_&_&(_&_&_&_&F)&_). exact F. Qed.
+
+Lemma fast_collapse_he a b acc he : fast (fst (collapse_he a b acc he)) = fast (fst acc).
+Proof.
+  destruct acc as [s nhes]. unfold collapse_he. cbv zeta.
+  match goal with |- context [tet_add_halfedge s ?x ?y] =>
+    pose proof (fast_tet_add_halfedge s x y) as H; destruct (tet_add_halfedge s x y) as [s1 h'] end. exact H.
+Qed.
+Lemma fast_fold_collapse_he a b l : forall acc, fast (fst (fold_left (collapse_he a b) l acc)) = fast (fst acc).
+Proof. induction l as [|x l IH]; intros acc; [reflexivity|]. simpl. rewrite IH. apply fast_collapse_he. Qed.
+
+Lemma fast_collapse_hf a b acc hf r v : (forall p, acc = Some p -> fast (fst p) = v) -> collapse_hf a b acc hf = Some r -> fast (fst r) = v.
+Proof.
+  intros H. unfold collapse_hf, bind. destruct acc as [[s nhfs]|]; [|discriminate]. specialize (H _ eq_refl). cbn [fst] in H.
+  destruct (rd (halfface s hf) 0) as [h0|]; [|discriminate]. destruct (rd (halfface s hf) 1) as [h1|]; [|discriminate].
+  destruct (rd (halfface s hf) 2) as [h2|]; [|discriminate].
+  pose proof (fast_fold_collapse_he a b [h0; h1; h2] (s, [])) as H1.
+  destruct (fold_left (collapse_he a b) [h0; h1; h2] (s, [])) as [s1 nhes]. cbn [fst] in H1.
+  pose proof (fast_tet_add_halfface s1 nhes false) as H2. destruct (tet_add_halfface s1 nhes false) as [s2 [hfh|]]; [|discriminate].
+  intros E. inversion E. cbn [fst] in *. change (fast s2 = v). congruence.
+Qed.
+Lemma fast_fold_collapse_hf a b l v : forall acc r, (forall p, acc = Some p -> fast (fst p) = v) ->
+  fold_left (collapse_hf a b) l acc = Some r -> fast (fst r) = v.
+Proof.
+  induction l as [|x l IH]; intros acc r H E; [simpl in E; apply H; exact E|].
+  simpl in E. eapply IH; [| exact E]. intros p Hp. eapply fast_collapse_hf; eassumption.
+Qed.
+
+Lemma fast_collapse_cell a b coll acc ch r v : (forall p, acc = Some p -> dshape (fst p) /\ fast (fst p) = v) ->
+  collapse_cell a b coll acc ch = Some r -> fast (fst r) = v.
+Proof.
+  intros H. unfold collapse_cell, bind. destruct acc as [[s news]|] eqn:Ea; [|discriminate].
+  destruct (H _ eq_refl) as [Hd Hf]. cbn [fst] in *.
+  destruct (memb ch coll); [intros E; inversion E; exact Hf|].
+  destruct (rd (cells s) ch) as [hfhs|]; [|discriminate].
+  destruct (rd hfhs 0) as [h0|]; [|discriminate]. destruct (rd hfhs 1) as [h1|]; [|discriminate].
+  destruct (rd hfhs 2) as [h2|]; [|discriminate]. destruct (rd hfhs 3) as [h3|]; [|discriminate].
+  destruct (fold_left (collapse_hf a b) [h0; h1; h2; h3] (Some (s, []))) as [[s1 nhfs]|] eqn:E1; [|discriminate].
+  intros E. inversion E. cbn [fst].
+  assert (F1 : fast s1 = v) by (refine (fast_fold_collapse_hf a b _ v _ (s1, nhfs) _ E1); intros p Hp; inversion Hp; exact Hf).
+  assert (D1 : dshape s1) by (refine (dshape_fold_collapse_hf a b _ _ (s1, nhfs) _ E1); intros p Hp; inversion Hp; exact Hd).
+  rewrite (fast_dstep _ _ _ _ _ _ (delete_cell_deferred ch s1 (proj2 D1))). exact F1.
+Qed.
+
+Lemma fast_fold_collapse_cell a b coll l v : forall acc r, (forall p, acc = Some p -> dshape (fst p) /\ fast (fst p) = v) ->
+  fold_left (collapse_cell a b coll) l acc = Some r -> fast (fst r) = v.
+Proof.
+  induction l as [|x l IH]; intros acc r H E; [simpl in E; exact (proj2 (H _ E))|].
+  simpl in E. eapply IH; [| exact E]. intros p Hp. split.
+  - eapply dshape_collapse_cell; [| exact Hp]. intros q Hq. exact (proj1 (H q Hq)).
+  - eapply fast_collapse_cell; eassumption.
+Qed.
+
+Lemma fast_fold_readd l v : forall acc r, (forall s, acc = Some s -> fast s = v) -> fold_left collapse_readd l acc = Some r -> fast r = v.
+Proof.
+  induction l as [|n l IH]; intros acc r H E; [simpl in E; apply H; exact E|].
+  simpl in E. eapply IH; [| exact E]. intros s1 Hs. unfold collapse_readd, bind in Hs. destruct acc as [s|]; [|discriminate].
+  pose proof (fast_tet_add_cell s (snd n) false) as H2. destruct (tet_add_cell s (snd n) false) as [s2 [c|]]; [|discriminate].
+  inversion Hs. cbn [fst] in *. rewrite <- (H s eq_refl). exact H2.
+Qed.
+
+(* collapse_edge called in immediate + fast mode (it ends in a garbage collection) keeps the valences *)
+Theorem collapse_edge_immediate_fast s he s' r : tet_shape s -> deferred s = false -> fast s = true ->
+  collapse_edge s he = Some (s', r) -> tet_shape s' /\ deferred s' = false /\ fast s' = true.
+Proof.
+  intros K D Fa. unfold collapse_edge. rewrite D. cbn [negb]. cbv zeta. unfold bind.
+  set (t := enable_deferred true s).
+  assert (Dt : dshape t /\ fast t = true).
+  { unfold t, enable_deferred. rewrite D. cbn [andb]. split; [split; [destruct K; split; assumption | reflexivity] | exact Fa]. }
+  destruct (fold_left (collapse_cell (he_from t he) (he_to t he) (collapsing_cells t he)) (vertex_cells t (he_from t he)) (Some (t, [])))
+    as [[s1 news]|] eqn:E1; [|discriminate].
+  assert (H1 : dshape s1) by (refine (dshape_fold_collapse_cell _ _ _ _ _ _ _ E1); intros p Hp; inversion Hp; exact (proj1 Dt)).
+  assert (F1 : fast s1 = true) by (refine (fast_fold_collapse_cell _ _ _ _ true _ (s1, news) _ E1); intros p Hp; inversion Hp; exact Dt).
+  destruct (fold_left collapse_readd news (Some (delete_vertex (he_from t he) s1))) as [s3|] eqn:E3; [|discriminate].
+  assert (H3 : dshape s3) by (refine (dshape_fold_readd _ _ _ _ E3); intros p Hp; inversion Hp; apply dshape_delete_vertex; exact H1).
+  assert (F3 : fast s3 = true).
+  { refine (fast_fold_readd _ true _ _ _ E3). intros p Hp. inversion Hp.
+    rewrite (fast_dstep _ _ _ _ _ _ (delete_vertex_deferred (he_from t he) s1 (proj2 H1))). exact F1. }
+  intros E. inversion E. destruct H3 as [K3 D3]. unfold enable_deferred. rewrite D3. cbn [negb andb].
+  destruct (kshape_collect_garbage_fast 3 4 s3 K3 F3) as (Kg&Fg&Dg). repeat split; try (cbn; assumption).
+  - destruct Kg; assumption.
+  - destruct Kg; assumption.
+Qed.
+
+(* ================================================================== 8. the invariant over histories *)
+
+(* Operations OUTSIDE the proved part of the invariant: physical removal of entities in SLOW mode (deletion with
+   deferred and fast deletion both off, a garbage collection / switch to immediate deletion that has something to
+   collect while fast deletion is off, a collapse called in immediate slow mode, which ends in one), and set_face /
+   set_cell, which are not tet operations of the property.  Everything else is inside: all additions in every form,
+   accepted or rejected, every deletion / garbage collection / collapse in deferred or fast mode, index swaps, mode
+   switches, clear, property operations. *)
+Definition outside_partial (s : mesh) (o : top) : bool :=
+  match o with
+  | TK (DelVertex _) | TK (DelEdge _) | TK (DelFace _) | TK (DelCell _) => negb (deferred s) && negb (fast s)
+  | TK CollectGarbage => deferred s && needs_gc s && negb (fast s)
+  | TK (EnableDeferred b) => deferred s && negb b && needs_gc s && negb (fast s)
+  | TK (SetFace _ _) | TK (SetCell _ _) => true
+  | TCollapse _ => negb (deferred s) && negb (fast s)
+  | _ => false
+  end.
+
+Lemma kshape_of_fastq kf kc s : fastq kf kc s -> kshape kf kc s. Proof. intros [K _]. exact K. Qed.
+
+Lemma kshape_delete_any kf kc (del : nat -> mesh -> mesh) x s :
+  (forall y t, deferred t = true -> same_fc t (del y t)) -> (forall y t, fastq kf kc t -> fastq kf kc (del y t)) ->
+  kshape kf kc s -> negb (deferred s) && negb (fast s) = false -> kshape kf kc (del x s).
+Proof.
+  intros Hd Hf K O. destruct (deferred s) eqn:D.
+  - eapply kshape_same; [apply Hd; exact D | exact K].
+  - destruct (fast s) eqn:Fa; [|discriminate]. apply kshape_of_fastq. apply Hf. split; [exact K | split; assumption].
+Qed.
+
+Lemma shape_exec_kernel kf kc s k s' r :
+  kshape kf kc s -> valid_op s k = true -> outside_partial s (TK k) = false ->
+  (forall hes c, k <> AddFace hes c) -> (forall vs, k <> AddFaceV vs) -> (forall hfs c, k <> AddCell hfs c) ->
+  exec s k = (s', r) -> kshape kf kc s'.
+Proof.
+  intros K V O NF NV NC E. destruct k; cbn [exec] in E; cbn [outside_partial] in O; cbn [valid_op] in V;
+    try (exfalso; eapply NF; reflexivity); try (exfalso; eapply NV; reflexivity); try (exfalso; eapply NC; reflexivity);
+    try discriminate.
+  - (* AddVertex *) pose proof (fc_add_vertex s) as H. destruct (add_vertex s). inversion E; subst. eapply kshape_same; eassumption.
+  - inversion E; subst. eapply kshape_same; [apply fc_add_n_vertices | exact K].
+  - pose proof (fc_add_edge s a b dup) as H. destruct (add_edge s a b dup). inversion E; subst. eapply kshape_same; eassumption.
+  - inversion E; subst. eapply kshape_same; [apply fc_set_edge | exact K].
+  - (* DelVertex *) inversion E; subst. apply (kshape_delete_any kf kc delete_vertex); try assumption.
+    + intros y t D. exact (fc_dstep _ _ _ _ _ _ (delete_vertex_deferred y t D)).
+    + intros y t. apply fastq_delete_vertex.
+  - inversion E; subst. apply (kshape_delete_any kf kc delete_edge); try assumption.
+    + intros y t D. exact (fc_dstep _ _ _ _ _ _ (delete_edge_deferred y t D)).
+    + intros y t. apply fastq_delete_edge.
+  - inversion E; subst. apply (kshape_delete_any kf kc delete_face); try assumption.
+    + intros y t D. exact (fc_dstep _ _ _ _ _ _ (delete_face_deferred y t D)).
+    + intros y t. apply fastq_delete_face.
+  - inversion E; subst. apply (kshape_delete_any kf kc delete_cell); try assumption.
+    + intros y t D. exact (fc_dstep _ _ _ _ _ _ (delete_cell_deferred y t D)).
+    + intros y t. apply fastq_delete_cell.
+  - (* SwapV *) inversion E; subst. eapply kshape_same; [exact (proj1 (swap_vertex_fc a b s)) | exact K].
+  - (* SwapE *) inversion E; subst. destruct K as [F C]. destruct (swap_edge_fc kf a b s F) as (f&c&_). split; [exact f | rewrite c; exact C].
+  - (* SwapF *) inversion E; subst. destruct K as [F C]. destruct (swap_face_fc kc a b s C) as (f&c&_).
+    apply andb_true_iff in V. destruct V as [Va Vb]. apply Nat.ltb_lt in Va, Vb. split; [|exact c].
+    rewrite f. destruct (a =? b); [exact F | apply (Forall_swap_nth (lenP kf)); assumption].
+  - (* SwapC *) inversion E; subst. destruct K as [F C]. destruct (swap_cell_fc a b s) as (f&c&_).
+    apply andb_true_iff in V. destruct V as [Va Vb]. apply Nat.ltb_lt in Va, Vb. split; [rewrite f; exact F|].
+    rewrite c. destruct (a =? b); [exact C | apply (Forall_swap_nth (lenP kc)); assumption].
+  - (* GC *) inversion E; subst. destruct (deferred s && needs_gc s) eqn:G.
+    + cbn [andb] in O. apply negb_false_iff in O. exact (proj1 (kshape_collect_garbage_fast kf kc s K O)).
+    + rewrite collect_garbage_noop by exact G. exact K.
+  - inversion E; subst. apply kshape_clear.
+  - inversion E; subst. eapply kshape_same; [apply fc_enable_vbu | exact K].
+  - inversion E; subst. eapply kshape_same; [apply fc_enable_ebu | exact K].
+  - inversion E; subst. eapply kshape_same; [apply fc_enable_fbu | exact K].
+  - (* EnableDeferred *) inversion E; subst. unfold enable_deferred.
+    destruct (deferred s && negb b) eqn:Db.
+    + cbn [andb] in O. destruct (needs_gc s) eqn:G.
+      * cbn [andb] in O. apply negb_false_iff in O. destruct (kshape_collect_garbage_fast kf kc s K O) as ([F C]&_). split; assumption.
+      * rewrite collect_garbage_noop; [destruct K; split; assumption | rewrite G; apply andb_false_r].
+    + destruct K; split; assumption.
+  - inversion E; subst. destruct K; split; assumption.
+  - inversion E; subst. destruct K; split; assumption.
+  - inversion E; subst. destruct K; split; assumption.
+  - inversion E; subst. destruct K; split; assumption.
+Qed.
+
+Theorem tet_shape_step s o s' r : tet_shape s -> outside_partial s o = false -> tet_step s o = TOk s' r -> tet_shape s'.
+Proof.
+  intros K O. unfold tet_step. destruct (tet_valid s o) eqn:V; [|discriminate].
+  destruct (tet_exec s o) as [[s1 r1]|] eqn:E; [|discriminate]. intros H. inversion H; subst. clear H.
+  destruct o as [k|vs chk|a b c d chk|a b|a b c chk|hes chk|he]; cbn [tet_exec] in E; cbn [tet_valid] in V.
+  - destruct k; try (some_inj E E'; unfold tet_shape in *; eapply (shape_exec_kernel 3 4); [exact K | exact V | exact O | | | | exact E']; intros; discriminate).
+    + some_inj E E'. pose proof (shape_tet_add_face s hes check K) as H. rewrite E' in H. exact H.
+    + some_inj E E'. pose proof (shape_tet_add_face_v s vs K) as H. rewrite E' in H. exact H.
+    + some_inj E E'. pose proof (shape_tet_add_cell s hfs check K) as H. rewrite E' in H. exact H.
+  - some_inj E E'. pose proof (shape_tet_add_cell_v s vs chk K) as H. rewrite E' in H. exact H.
+  - exact (shape_tet_add_cell_4 s a b c d chk _ K E).
+  - pose proof (fc_tet_add_halfedge s a b) as H. destruct (tet_add_halfedge s a b) as [s2 h]. inversion E; subst.
+    eapply kshape_same; eassumption.
+  - some_inj E E'. pose proof (shape_tet_add_halfface_v s a b c chk K) as H. rewrite E' in H. exact H.
+  - some_inj E E'. pose proof (shape_tet_add_halfface s hes chk K) as H. rewrite E' in H. exact H.
+  - cbn [outside_partial] in O. unfold bind in E.
+    destruct (collapse_edge s he) as [[s2 v]|] eqn:C; [|discriminate]. inversion E; subst.
+    destruct (deferred s) eqn:D.
+    + exact (proj1 (proj1 (collapse_edge_deferred s he s' v (conj K D) C))).
+    + destruct (fast s) eqn:Fa; [|discriminate]. exact (proj1 (collapse_edge_immediate_fast s he s' v K D Fa C)).
+Qed.
+
+(* a history all of whose executed steps are inside the proved part *)
+Fixpoint inside_along (s : mesh) (ops : list top) : Prop :=
+  match ops with
+  | [] => True
+  | o :: t => match tet_step s o with
+              | TOk s' _ => outside_partial s o = false /\ inside_along s' t
+              | _ => inside_along s t
+              end
+  end.
+
+Theorem tet_shape_run_from : forall ops s, tet_shape s -> inside_along s ops -> tet_shape (tet_run_from s ops).
+Proof.
+  induction ops as [|o t IH]; intros s K H; [exact K|].
+  unfold tet_run_from. simpl. fold (tet_run_from (match tet_step s o with TOk s' _ => s' | _ => s end) t).
+  simpl in H. destruct (tet_step s o) as [s' r| |] eqn:E.
+  - destruct H as [O H]. apply IH; [eapply tet_shape_step; eassumption | exact H].
+  - apply IH; assumption.
+  - apply IH; assumption.
+Qed.
+
+Lemma tet_shape_empty : tet_shape empty_mesh.
+Proof. split; constructor. Qed.
+
+Theorem tet_shape_run ops : inside_along empty_mesh ops -> tet_shape (tet_run ops).
+Proof. apply tet_shape_run_from. apply tet_shape_empty. Qed.
+
+(* non-vacuity: a history with immediate fast deletions, a garbage collection, swaps and collapses in three modes *)
+Example inside_history_with_removals :
+  let ops := [TK (AddVertices 6); TAddCellV [0; 1; 2; 3] true; TAddCellV [0; 1; 3; 4] true; TAddCell4 0 1 4 5 false;
+              TK (SwapF 0 3); TK (SwapC 0 2); TCollapse 0; TK CollectGarbage;
+              TK (EnableDeferred false); TAddCellV [0; 1; 2; 3] true; TAddCellV [0; 1; 3; 4] true; TK (DelFace 0); TCollapse 2] in
+  inside_along empty_mesh ops /\ nc (tet_run ops) = 1 /\ nf (tet_run ops) = 4.
+Proof. vm_compute. repeat split. Qed.
+
+(* ================================================================== 9. the FULL shape statement is refuted *)
 
 (* the property's shape: valences AND every live cell on exactly four distinct vertices *)
 Definition cell_vertex_set (s : mesh) (c : nat) : list nat := set_of_list (flat_map (hf_vertices s) (cell_at s c)).
@@ -822,3 +1260,4 @@ Qed.
 
 Example two_pillows_cell : cell_vertex_set (tet_run two_pillows) 0 = [0; 1; 2; 3; 4; 5] /\ tet_shape (tet_run two_pillows).
 Proof. split; [vm_compute; reflexivity | apply tet_shape_run; vm_compute; repeat split]. Qed.
+
